@@ -6,8 +6,13 @@ C12 — model of the version / readiness / reload-result state of
 into Gateway / Listener / Route-parent conditions.
 
 One batch = one `Batch` record: the `ChangeType` returned by `processor.Process()` and what the
-environment does during this batch (file write result, the NGINX master as a `Reload.Oracle`,
-NGINX Plus API result).  Nothing is assumed about these.
+environment does during this batch (what `ReplaceFiles` did to the disk and which error VALUE it
+returned, the NGINX master as a `Reload.Oracle`, NGINX Plus API result).  Nothing is assumed about
+these.
+
+`updateNginxConf` is one transaction `applyTx : FilesOutcome → Oracle → … → ApplyOut`:
+write files → reload with that version → (Plus) API; EVERY `ReplaceFiles` error, whatever its class
+(`fs.ErrNotExist`-wrapping, `fs.ErrPermission`, EIO, a plain error), returns before `Reload`.
 -/
 import NGF.Model.Reload
 
@@ -17,12 +22,49 @@ open NGF.Reload
 inductive ChangeType | noChange | endpointsOnly | clusterState
   deriving DecidableEq, Repr
 
+/-- class of the error VALUE returned by `nginxFileMgr.ReplaceFiles`, as `errors.Is` sees it through
+the `%w` chain: `fs.ErrNotExist` (ENOENT), `fs.ErrPermission` (EACCES/EPERM), EIO, anything else. -/
+inductive ErrClass | notExist | permission | io | other
+  deriving DecidableEq, Repr
+
+/-- what `ReplaceFiles(files)` did: `ok`, or it failed with an error of class `cls` after `written`
+leading files of the generated list had been written completely (the next one — if any — was not
+created, or is empty / truncated; `written = 0` also covers a failure while the previous generation
+was being removed). -/
+inductive FilesOutcome
+  | ok
+  | failed (cls : ErrClass) (written : Nat)
+  deriving DecidableEq, Repr
+
+def FilesOutcome.isOk : FilesOutcome → Bool
+  | .ok => true
+  | .failed _ _ => false
+
+/-- number of files of a generated list of length `n` that are completely on disk afterwards -/
+def filesOnDisk (n : Nat) : FilesOutcome → Nat
+  | .ok => n
+  | .failed _ k => min k n
+
+/-- file number `i` of a generated list of length `n` is completely on disk afterwards -/
+def fileOnDisk (n : Nat) (f : FilesOutcome) (i : Nat) : Bool :=
+  decide (i < n) && (match f with
+    | .ok => true
+    | .failed _ k => decide (i < k))
+
 structure Batch where
   ct      : ChangeType
-  writeOk : Bool      -- `nginxFileMgr.ReplaceFiles` returned nil
-  oracle  : Oracle    -- the NGINX master during `nginxRuntimeMgr.Reload`
-  apiOk   : Bool      -- `updateUpstreamServers` (NGINX Plus API) returned nil
+  nfiles  : Nat           -- length of the list returned by `generator.Generate`
+  verIdx  : Nat           -- position of `config-version.conf` in it (map iteration: any position)
+  files   : FilesOutcome  -- what `nginxFileMgr.ReplaceFiles` did
+  oracle  : Oracle        -- the NGINX master during `nginxRuntimeMgr.Reload`
+  apiOk   : Bool          -- `updateUpstreamServers` (NGINX Plus API) returned nil
   deriving Repr
+
+/-- `nginxFileMgr.ReplaceFiles` returned nil -/
+def Batch.writeOk (b : Batch) : Bool := b.files.isOk
+
+/-- the version file of this batch's configuration is completely on disk -/
+def Batch.versionFileOnDisk (b : Batch) : Bool := fileOnDisk b.nfiles b.files b.verIdx
 
 /-- Go state: `h.version`, `checker.ready`, `checker.firstBatchError != nil`,
 `h.latestReloadResult.Error != nil`; ghost: how often `close(readyCh)` ran. -/
@@ -45,9 +87,53 @@ structure Emit where
   apiCalled     : Bool         -- NGINX Plus API was consulted
   err           : Bool         -- `err != nil` after the switch
   statusUpdated : Bool         -- `updateStatuses` ran (with the new `latestReloadResult`)
+  fileErr       : Option ErrClass  -- the returned error wraps a `ReplaceFiles` error of this class
+  written       : Option Nat   -- files of the generated set completely on disk (if `ReplaceFiles` ran)
   deriving DecidableEq, Repr
 
-def Emit.none : Emit := ⟨Option.none, false, Option.none, Option.none, false, false, false⟩
+def Emit.none : Emit :=
+  ⟨Option.none, false, Option.none, Option.none, false, false, false, Option.none, Option.none⟩
+
+/-! ### The apply transaction -/
+
+/-- which step of `updateNginxConf` returned the error -/
+inductive ApplyErr
+  | files (cls : ErrClass)   -- "failed to replace NGINX configuration files: %w"
+  | reload (e : Err)         -- "failed to reload NGINX: %w"
+  | api                      -- "failed to update upstream servers: %w"
+  deriving DecidableEq, Repr
+
+structure ApplyOut where
+  res       : Option ApplyErr   -- `none` = nil
+  reload    : Option Out        -- what `Reload` did, if it was invoked
+  apiCalled : Bool
+  deriving DecidableEq, Repr
+
+/-- `updateNginxConf` as a transaction over the environment: the outcome of `ReplaceFiles`, the
+master during `Reload(v)`, the Plus API.  A `ReplaceFiles` error of ANY class returns at once. -/
+def applyTx (plus : Bool) (f : FilesOutcome) (o : Oracle) (apiOk : Bool) (v : Nat) : ApplyOut :=
+  match f with
+  | .failed cls _ => ⟨some (.files cls), Option.none, false⟩
+  | .ok =>
+    let r := reload o v
+    match r.res with
+    | some e => ⟨some (.reload e), some r, false⟩
+    | Option.none =>
+      if plus then ⟨if apiOk then Option.none else some .api, some r, true⟩
+      else ⟨Option.none, some r, false⟩
+
+/-- NOT the code — the refuted variant "a `ReplaceFiles` error that wraps `fs.ErrNotExist` means the
+file is already gone, go on" (seeded change C12-r3m1).  Kept only for the witness
+`enoent_benign_refuted`. -/
+def applyTxEnoentBenign (plus : Bool) (f : FilesOutcome) (o : Oracle) (apiOk : Bool) (v : Nat) :
+    ApplyOut :=
+  match f with
+  | .failed .notExist _ => applyTx plus .ok o apiOk v
+  | f => applyTx plus f o apiOk v
+
+def ApplyErr.fileClass : Option ApplyErr → Option ErrClass
+  | some (.files c) => some c
+  | _ => Option.none
 
 /-- `nginxConfiguredOnStartChecker.setAsReady` -/
 def setAsReady (s : H) : H :=
@@ -55,19 +141,18 @@ def setAsReady (s : H) : H :=
 
 /-- `updateNginxConf(ctx, cfg)`: generate, replace files, reload with `cfg.Version`, then (Plus) API. -/
 def updateNginxConf (plus : Bool) (b : Batch) (v : Nat) : Emit :=
-  if !b.writeOk then ⟨some v, true, Option.none, Option.none, false, true, true⟩
-  else
-    let r := reload b.oracle v
-    if r.res.isSome then ⟨some v, true, some v, some r, false, true, true⟩
-    else if plus then ⟨some v, true, some v, some r, true, !b.apiOk, true⟩
-    else ⟨some v, true, some v, some r, false, false, true⟩
+  let a := applyTx plus b.files b.oracle b.apiOk v
+  { cfgVersion := some v, generated := true,
+    reloadVersion := a.reload.map (fun _ => v), reload := a.reload, apiCalled := a.apiCalled,
+    err := a.res.isSome, statusUpdated := true,
+    fileErr := ApplyErr.fileClass a.res, written := some (filesOnDisk b.nfiles b.files) }
 
 /-- the `switch changeType` arms for the two change kinds -/
 def apply (plus : Bool) (b : Batch) (v : Nat) : Emit :=
   match b.ct with
   | .noChange => Emit.none
   | .endpointsOnly =>
-    if plus then ⟨some v, false, Option.none, Option.none, true, !b.apiOk, true⟩
+    if plus then ⟨some v, false, Option.none, Option.none, true, !b.apiOk, true, Option.none, Option.none⟩
     else updateNginxConf plus b v
   | .clusterState => updateNginxConf plus b v
 
@@ -136,5 +221,19 @@ def failureCond : Target → Cond
 `cs` are the conditions collected before the `if nginxReloadRes.Error != nil` block. -/
 def fold (t : Target) (reloadErr : Bool) (cs : List Cond) : List Cond :=
   dedup (if reloadErr then cs ++ [failureCond t] else cs)
+
+/-- the conditions a batch issues for a target whose conditions before the
+`if nginxReloadRes.Error != nil` block are `cs`: `updateStatuses` hands the freshly stored
+`h.latestReloadResult` (state AFTER the batch) to `Prepare*Requests`. -/
+def issued (after : H) (t : Target) (cs : List Cond) : List Cond := fold t after.lastErr cs
+
+/-- the batch goes through `updateNginxConf` (files + reload) -/
+def needsReload (plus : Bool) (b : Batch) : Bool :=
+  b.ct == .clusterState || (b.ct == .endpointsOnly && !plus)
+
+/-- number of batches that build a configuration (each consumes a version, failed or not) -/
+def applies : List Batch → Nat
+  | [] => 0
+  | b :: bs => (if b.ct = .noChange then 0 else 1) + applies bs
 
 end NGF.HandlerVer
